@@ -350,15 +350,17 @@ def call_graph_closure(fb, roots):
     return seen
 
 
-def const_uses(fb, body):
-    """paths of named constants a body mentions (through operands)"""
+def const_uses(fb, body, live=None):
+    """paths of named constants a body mentions (through operands); `live`: only these blocks"""
     out = set()
 
     def op(o):
         if isinstance(o, dict) and o.get("k") == "const" and "def" in o and "promoted" not in o:
             out.add(o["def"])
 
-    for bl in body.blocks:
+    for bi_, bl in enumerate(body.blocks):
+        if live is not None and bi_ not in live:
+            continue
         for s in bl["stmts"]:
             if s["k"] == "assign":
                 rv = s["rv"]
